@@ -55,9 +55,22 @@ theorem sorted_insSorted (f : Id → Nat) (l : List Id) (i : Id)
       · subst e; omega
       · have := hp.1 b e; omega
 
+/-! ### stampIns -/
+
+theorem mem_stampIns (v : Variant) (f : Id → Nat) (l : List Id) (i j : Id) :
+    j ∈ stampIns v f l i ↔ j = i ∨ j ∈ l := by
+  unfold stampIns
+  split
+  · exact mem_insSorted f l i j
+  · simp
+
+theorem stampIns_sorted {v : Variant} (hv : v.actSorted = true) (f : Id → Nat) (l : List Id) (i : Id) :
+    stampIns v f l i = insSorted f l i := by
+  simp [stampIns, hv]
+
 /-! ### MHD_update_last_activity_ -/
 
-theorem updateLastActivity_conns (d : Daemon) (i : Id) : (updateLastActivity d i).conns = d.conns := by
+theorem updateLastActivity_conns (v : Variant) (d : Daemon) (i : Id) : (updateLastActivity v d i).conns = d.conns := by
   unfold updateLastActivity Daemon.remNormal
   dsimp only
   split; rfl
@@ -65,8 +78,8 @@ theorem updateLastActivity_conns (d : Daemon) (i : Id) : (updateLastActivity d i
   split; rfl
   split <;> rfl
 
-theorem inv_updateLastActivity {d : Daemon} (h : Inv d) (i : Id) (hi : i ∈ d.conns) :
-    Inv (updateLastActivity d i) := by
+theorem inv_updateLastActivity {v : Variant} (hv : v.actSorted = true) {d : Daemon} (h : Inv d) (i : Id)
+    (hi : i ∈ d.conns) : Inv (updateLastActivity v d i) := by
   by_cases h0 : (d.c i).tmo = 0
   · simp [updateLastActivity, h0]; exact h
   have hs : (d.c i).suspended = false := h.connsS i hi
@@ -74,24 +87,23 @@ theorem inv_updateLastActivity {d : Daemon} (h : Inv d) (i : Id) (hi : i ∈ d.c
   · have hin : i ∈ d.normal := mem_normal_of_conns h hi ht
     have hnm : i ∉ d.manual := fun hm => h.manualT i hm ht
     have hd0 : d.cfg.dtmo ≠ 0 := ht ▸ h0
-    have e : updateLastActivity d i =
-        { (d.set i { (d.c i) with la := d.now }) with normal := i :: d.normal.erase i } := by
-      simp [updateLastActivity, Daemon.remNormal, hd0, hs, ht, hin]
+    have e : updateLastActivity v d i =
+        { (d.set i { (d.c i) with la := d.now }) with
+            normal := insSorted (d.set i { (d.c i) with la := d.now }).la (d.normal.erase i) i } := by
+      simp [updateLastActivity, Daemon.remNormal, hd0, hs, ht, hin, stampIns, hv]
+      rfl
     rw [e]
     have hne := List.Nodup.not_mem_erase (a := i) h.ndNormal
     apply inv_retime h i hi
     case hnormal =>
       simp only [set_c, if_true, ht]
-      refine ⟨by simp, List.nodup_cons.2 ⟨hne, List.Nodup.erase i h.ndNormal⟩, ?_⟩
+      refine ⟨fun j => mem_insSorted _ _ _ _, nodup_insSorted _ _ _ hne (List.Nodup.erase i h.ndNormal), ?_⟩
       intro hd
-      refine List.pairwise_cons.2 ⟨?_, ?_⟩
-      · intro b hb
-        have hbi : b ≠ i := fun e => hne (e ▸ hb)
-        simp [hbi]; exact h.laLe b
-      · refine sorted_congr ?_ (List.Pairwise.sublist List.erase_sublist (h.sorted hd))
-        intro a ha
-        have hai : a ≠ i := fun e => hne (e ▸ ha)
-        simp [hai]
+      apply sorted_insSorted
+      refine sorted_congr ?_ (List.Pairwise.sublist List.erase_sublist (h.sorted hd))
+      intro a ha
+      have hai : a ≠ i := fun e => hne (e ▸ ha)
+      simp [hai]
     case hmanual => simp [ht, List.erase_of_not_mem hnm]
     case hnde => exact h.ndEready
     case hnep => exact h.nonEpoll
@@ -103,7 +115,7 @@ theorem inv_updateLastActivity {d : Daemon} (h : Inv d) (i : Id) (hi : i ∈ d.c
     all_goals rfl
   · have hnn : i ∉ d.normal := fun hm => ht (h.normalT i hm)
     have hmm : i ∈ d.manual := mem_manual_of_conns h hi ht
-    have e : updateLastActivity d i = d.set i { (d.c i) with la := d.now } := by
+    have e : updateLastActivity v d i = d.set i { (d.c i) with la := d.now } := by
       simp [updateLastActivity, h0, hs, ht]
     rw [e]
     apply inv_retime h i hi
@@ -126,45 +138,45 @@ theorem inv_updateLastActivity {d : Daemon} (h : Inv d) (i : Id) (hi : i ∈ d.c
 
 /-- everything about connections other than `i` that later steps rely on is unchanged -/
 def Others (i : Id) (d d' : Daemon) : Prop :=
-  d'.used = d.used ∧ d'.newL = d.newL ∧ d'.cfg = d.cfg ∧ d'.now = d.now ∧
+  d'.used = d.used ∧ d'.newL = d.newL ∧ d'.cfg = d.cfg ∧ (d'.now = d.now ∧ d'.back = d.back) ∧
   ∀ j, j ≠ i → (j ∈ d'.conns ↔ j ∈ d.conns) ∧ (j ∈ d'.susp ↔ j ∈ d.susp) ∧ (j ∈ d'.cleanup ↔ j ∈ d.cleanup) ∧
     d'.c j = d.c j
 
 theorem Others.refl (i : Id) (d : Daemon) : Others i d d := by
-  refine ⟨rfl, rfl, rfl, rfl, ?_⟩; intro j _; simp
+  refine ⟨rfl, rfl, rfl, ⟨rfl, rfl⟩, ?_⟩; intro j _; simp
 
 theorem Others.trans {i : Id} {a b c : Daemon} (h1 : Others i a b) (h2 : Others i b c) : Others i a c := by
   obtain ⟨a1, a2, a3, a4, a5⟩ := h1
   obtain ⟨b1, b2, b3, b4, b5⟩ := h2
-  refine ⟨by rw [b1, a1], by rw [b2, a2], by rw [b3, a3], by rw [b4, a4], ?_⟩
+  refine ⟨by rw [b1, a1], by rw [b2, a2], by rw [b3, a3], ⟨by rw [b4.1, a4.1], by rw [b4.2, a4.2]⟩, ?_⟩
   intro j hj
   have x := a5 j hj; have y := b5 j hj
   refine ⟨by rw [y.1, x.1], by rw [y.2.1, x.2.1], by rw [y.2.2.1, x.2.2.1], by rw [y.2.2.2, x.2.2.2]⟩
 
 theorem others_set (i : Id) (d : Daemon) (x : Conn) : Others i d (d.set i x) := by
-  refine ⟨rfl, rfl, rfl, rfl, ?_⟩; intro j hj; simp [hj]
+  refine ⟨rfl, rfl, rfl, ⟨rfl, rfl⟩, ?_⟩; intro j hj; simp [hj]
 
 theorem mem_erase_ne {l : List Id} {i j : Id} (hj : j ≠ i) : j ∈ l.erase i ↔ j ∈ l :=
   List.mem_erase_of_ne hj
 
-theorem others_updateLastActivity (d : Daemon) (i : Id) : Others i d (updateLastActivity d i) := by
+theorem others_updateLastActivity (v : Variant) (d : Daemon) (i : Id) : Others i d (updateLastActivity v d i) := by
   unfold updateLastActivity Daemon.remNormal
   dsimp only
   split; exact Others.refl i d
   split; exact Others.refl i d
   split; exact others_set i d _
   split
-  · refine ⟨rfl, rfl, rfl, rfl, ?_⟩; intro j hj; simp [hj]
-  · refine ⟨rfl, rfl, rfl, rfl, ?_⟩; intro j hj; simp [hj]
+  · refine ⟨rfl, rfl, rfl, ⟨rfl, rfl⟩, ?_⟩; intro j hj; simp [hj]
+  · refine ⟨rfl, rfl, rfl, ⟨rfl, rfl⟩, ?_⟩; intro j hj; simp [hj]
 
 /-! ### MHD_set_connection_option -/
 
 theorem inv_setTimeout {v : Variant} (hv : Fixed v) {d : Daemon} (h : Inv d) (i : Id) (s : Nat)
     (hst : i ∈ d.conns ∨ i ∈ d.susp) (hsb : s ≤ 4000000) : Inv (setTimeout v d i s) := by
-  obtain ⟨v1, v2, _, _⟩ := hv
+  obtain ⟨v1, v2, _, _, _⟩ := hv
   have hT : s * msPerSec ≤ tmoMax := by simp only [tmoMax]; exact Nat.mul_le_mul_right _ hsb
-  have hla : (if (d.c i).tmo = 0 then d.now else (d.c i).la) ≤ d.now := by
-    split; exact Nat.le_refl _; exact h.laLe i
+  have hla : (if (d.c i).tmo = 0 then d.now else (d.c i).la) ≤ d.now + d.back := by
+    split; exact Nat.le_add_right _ _; exact h.laLe i
   rcases hst with hi | hi
   · -- a live connection: taken out of its list, re-timed, put on the matching list
     have hs : (d.c i).suspended = false := h.connsS i hi
@@ -279,7 +291,7 @@ theorem others_setTimeout (v : Variant) (d : Daemon) (i : Id) (s : Nat) : Others
   unfold setTimeout Daemon.remTimeout Daemon.remNormal Daemon.remManual
   dsimp only
   repeat' split
-  all_goals (refine ⟨rfl, rfl, rfl, rfl, ?_⟩; intro j hj; simp [hj])
+  all_goals (refine ⟨rfl, rfl, rfl, ⟨rfl, rfl⟩, ?_⟩; intro j hj; simp [hj])
 
 /-! ### internal_suspend_connection_ -/
 
@@ -287,7 +299,7 @@ theorem others_internalSuspend (d : Daemon) (i : Id) : Others i d (internalSuspe
   unfold internalSuspend Daemon.remTimeout Daemon.remNormal Daemon.remManual Daemon.remConns
   dsimp only
   repeat' split
-  all_goals (refine ⟨rfl, rfl, rfl, rfl, ?_⟩; intro j hj; simp [hj, mem_erase_ne hj])
+  all_goals (refine ⟨rfl, rfl, rfl, ⟨rfl, rfl⟩, ?_⟩; intro j hj; simp [hj, mem_erase_ne hj])
 
 theorem inv_internalSuspend {d : Daemon} (h : Inv d) (i : Id) (hi : i ∈ d.conns) :
     Inv (internalSuspend d i) := by
@@ -371,7 +383,7 @@ theorem others_cleanupConnection (d : Daemon) (i : Id) : Others i d (cleanupConn
   repeat' split
   all_goals first
     | exact Others.refl i d
-    | (refine ⟨rfl, rfl, rfl, rfl, ?_⟩; intro j hj; simp [hj, mem_erase_ne hj]; try grind)
+    | (refine ⟨rfl, rfl, rfl, ⟨rfl, rfl⟩, ?_⟩; intro j hj; simp [hj, mem_erase_ne hj]; try grind)
 
 theorem inv_cleanupConnection {d : Daemon} (h : Inv d) (i : Id) (hi : i ∈ d.conns ∨ i ∈ d.cleanup) :
     Inv (cleanupConnection d i) := by
@@ -425,15 +437,16 @@ theorem cleanupConnection_mem {d : Daemon} (h : Inv d) (i : Id) (hi : i ∈ d.co
 
 /-! ### resume_suspended_connections -/
 
-theorem others_resumeOne (d : Daemon) (i : Id) : Others i d (resumeOne d i) := by
+theorem others_resumeOne (v : Variant) (d : Daemon) (i : Id) : Others i d (resumeOne v d i) := by
   unfold resumeOne Daemon.remSusp Daemon.insTimeout
   dsimp only
   repeat' split
   all_goals first
     | exact Others.refl i d
-    | (refine ⟨rfl, rfl, rfl, rfl, ?_⟩; intro j hj; simp [hj, mem_erase_ne hj])
+    | (refine ⟨rfl, rfl, rfl, ⟨rfl, rfl⟩, ?_⟩; intro j hj; simp [hj, mem_erase_ne hj])
 
-theorem inv_resumeOne {d : Daemon} (h : Inv d) (i : Id) (hi : i ∈ d.susp) : Inv (resumeOne d i) := by
+theorem inv_resumeOne {v : Variant} (hv : v.actSorted = true) {d : Daemon} (h : Inv d) (i : Id) (hi : i ∈ d.susp) :
+    Inv (resumeOne v d i) := by
   by_cases hr : (d.c i).resuming = false
   · simp [resumeOne, hr]; exact h
   have hs : (d.c i).suspended = true := h.suspS i hi
@@ -441,9 +454,10 @@ theorem inv_resumeOne {d : Daemon} (h : Inv d) (i : Id) (hi : i ∈ d.susp) : In
   have hnn : i ∉ d.newL := fun hc => (h.disjNew i hc).2.1 hi
   have hncl : i ∉ d.cleanup := fun hc => (h.disjClean i hc).2 hi
   have hu : i ∈ d.used := h.usedAll i (Or.inr (Or.inr (Or.inl hi)))
+  have hin : i ∉ d.normal := fun hm => hnc ((h.connsIff i).2 (Or.inl hm))
   have hne : i ∉ d.eready := fun he => by rcases h.ready i (Or.inl he) with x | x; exact hnc x; exact hncl x
-  have hla : (if (d.c i).tmo = 0 then (d.c i).la else d.now) ≤ d.now := by
-    split; exact h.laLe i; exact Nat.le_refl _
+  have hla : (if (d.c i).tmo = 0 then (d.c i).la else d.now) ≤ d.now + d.back := by
+    split; exact h.laLe i; exact Nat.le_add_right _ _
   by_cases he : d.cfg.epoll = true
   · by_cases ht : (d.c i).tmo = d.cfg.dtmo
     · apply inv_activate h i hnc hncl hnn hu
@@ -454,8 +468,19 @@ theorem inv_resumeOne {d : Daemon} (h : Inv d) (i : Id) (hi : i ∈ d.susp) : In
       case hc => intro j hj; simp [resumeOne, hr, Daemon.remSusp, hi, Daemon.insTimeout, he, ht, hj]
       case hxl => simpa [resumeOne, hr, Daemon.remSusp, hi, Daemon.insTimeout, he, ht] using hla
       case hxt => simpa [resumeOne, hr, Daemon.remSusp, hi, Daemon.insTimeout, he, ht] using h.dtmoB
-      case hhead =>
-        intro _ hd; simp [resumeOne, hr, Daemon.remSusp, hi, Daemon.insTimeout, he, ht, hd]
+      case hnormal =>
+        have e1 : ((resumeOne v d i).c i).tmo = d.cfg.dtmo := by
+          simp [resumeOne, hr, Daemon.remSusp, hi, Daemon.insTimeout, he, ht]
+        have e2 : (resumeOne v d i).normal = insSorted (resumeOne v d i).la d.normal i := by
+          simp [resumeOne, hr, Daemon.remSusp, hi, Daemon.insTimeout, he, ht, stampIns, hv]
+          rfl
+        rw [if_pos e1, e2]
+        refine ⟨fun j => mem_insSorted _ _ _ _, nodup_insSorted _ _ _ hin h.ndNormal, fun hd => ?_⟩
+        apply sorted_insSorted
+        refine sorted_congr ?_ (h.sorted hd)
+        intro a ha
+        have hai : a ≠ i := fun e => hin (e ▸ ha)
+        simp [resumeOne, hr, Daemon.remSusp, hi, Daemon.insTimeout, he, ht, hai]
       all_goals simp [resumeOne, hr, Daemon.remSusp, hi, Daemon.insTimeout, he, ht]
     · apply inv_activate h i hnc hncl hnn hu
       case hnde => simp [resumeOne, hr, Daemon.remSusp, hi, Daemon.insTimeout, he, ht]; exact ⟨hne, h.ndEready⟩
@@ -465,8 +490,6 @@ theorem inv_resumeOne {d : Daemon} (h : Inv d) (i : Id) (hi : i ∈ d.susp) : In
       case hc => intro j hj; simp [resumeOne, hr, Daemon.remSusp, hi, Daemon.insTimeout, he, ht, hj]
       case hxl => simpa [resumeOne, hr, Daemon.remSusp, hi, Daemon.insTimeout, he, ht] using hla
       case hxt => simpa [resumeOne, hr, Daemon.remSusp, hi, Daemon.insTimeout, he, ht] using h.tmoB i
-      case hhead =>
-        intro hx; simp [resumeOne, hr, Daemon.remSusp, hi, Daemon.insTimeout, he, ht] at hx
       all_goals simp [resumeOne, hr, Daemon.remSusp, hi, Daemon.insTimeout, he, ht]
   · have he' : d.cfg.epoll = false := by simpa using he
     by_cases ht : (d.c i).tmo = d.cfg.dtmo
@@ -478,8 +501,19 @@ theorem inv_resumeOne {d : Daemon} (h : Inv d) (i : Id) (hi : i ∈ d.susp) : In
       case hc => intro j hj; simp [resumeOne, hr, Daemon.remSusp, hi, Daemon.insTimeout, he', ht, hj]
       case hxl => simpa [resumeOne, hr, Daemon.remSusp, hi, Daemon.insTimeout, he', ht] using hla
       case hxt => simpa [resumeOne, hr, Daemon.remSusp, hi, Daemon.insTimeout, he', ht] using h.dtmoB
-      case hhead =>
-        intro _ hd; simp [resumeOne, hr, Daemon.remSusp, hi, Daemon.insTimeout, he', ht, hd]
+      case hnormal =>
+        have e1 : ((resumeOne v d i).c i).tmo = d.cfg.dtmo := by
+          simp [resumeOne, hr, Daemon.remSusp, hi, Daemon.insTimeout, he', ht]
+        have e2 : (resumeOne v d i).normal = insSorted (resumeOne v d i).la d.normal i := by
+          simp [resumeOne, hr, Daemon.remSusp, hi, Daemon.insTimeout, he', ht, stampIns, hv]
+          rfl
+        rw [if_pos e1, e2]
+        refine ⟨fun j => mem_insSorted _ _ _ _, nodup_insSorted _ _ _ hin h.ndNormal, fun hd => ?_⟩
+        apply sorted_insSorted
+        refine sorted_congr ?_ (h.sorted hd)
+        intro a ha
+        have hai : a ≠ i := fun e => hin (e ▸ ha)
+        simp [resumeOne, hr, Daemon.remSusp, hi, Daemon.insTimeout, he', ht, hai]
       all_goals simp [resumeOne, hr, Daemon.remSusp, hi, Daemon.insTimeout, he', ht]
     · apply inv_activate h i hnc hncl hnn hu
       case hnde => simpa [resumeOne, hr, Daemon.remSusp, hi, Daemon.insTimeout, he', ht] using h.ndEready
@@ -489,8 +523,6 @@ theorem inv_resumeOne {d : Daemon} (h : Inv d) (i : Id) (hi : i ∈ d.susp) : In
       case hc => intro j hj; simp [resumeOne, hr, Daemon.remSusp, hi, Daemon.insTimeout, he', ht, hj]
       case hxl => simpa [resumeOne, hr, Daemon.remSusp, hi, Daemon.insTimeout, he', ht] using hla
       case hxt => simpa [resumeOne, hr, Daemon.remSusp, hi, Daemon.insTimeout, he', ht] using h.tmoB i
-      case hhead =>
-        intro hx; simp [resumeOne, hr, Daemon.remSusp, hi, Daemon.insTimeout, he', ht] at hx
       all_goals simp [resumeOne, hr, Daemon.remSusp, hi, Daemon.insTimeout, he', ht]
 
 
@@ -500,7 +532,7 @@ theorem others_processOneNew (v : Variant) (d : Daemon) (i : Id) : Others i d (p
   unfold processOneNew
   dsimp only
   repeat' split
-  all_goals (refine ⟨rfl, rfl, rfl, rfl, ?_⟩; intro j hj; simp [hj])
+  all_goals (refine ⟨rfl, rfl, rfl, ⟨rfl, rfl⟩, ?_⟩; intro j hj; simp [hj])
 
 /-- what is known about a connection waiting in the queue of new connections -/
 def Fresh (d : Daemon) (i : Id) : Prop :=
@@ -509,11 +541,12 @@ def Fresh (d : Daemon) (i : Id) : Prop :=
 
 theorem inv_processOneNew {v : Variant} (hv : Fixed v) {d : Daemon} (h : Inv d) (i : Id) (hf : Fresh d i) :
     Inv (processOneNew v d i) := by
-  obtain ⟨_, _, v3, _⟩ := hv
+  obtain ⟨_, _, v3, _, v5⟩ := hv
   obtain ⟨hnc, hns, hncl, hnn, hu, ht, hs⟩ := hf
+  have hin : i ∉ d.normal := fun hm => hnc ((h.connsIff i).2 (Or.inl hm))
   have hne : i ∉ d.eready := fun he => by rcases h.ready i (Or.inl he) with x | x; exact hnc x; exact hncl x
-  have hla : (if (d.c i).tmo = 0 then (d.c i).la else d.now) ≤ d.now := by
-    split; exact h.laLe i; exact Nat.le_refl _
+  have hla : (if (d.c i).tmo = 0 then (d.c i).la else d.now) ≤ d.now + d.back := by
+    split; exact h.laLe i; exact Nat.le_add_right _ _
   have hse : d.susp.erase i = d.susp := List.erase_of_not_mem hns
   by_cases he : d.cfg.epoll = true
   · apply inv_activate h i hnc hncl hnn hu
@@ -523,7 +556,18 @@ theorem inv_processOneNew {v : Variant} (hv : Fixed v) {d : Daemon} (h : Inv d) 
     case hc => intro j hj; simp [processOneNew, he, hj]
     case hxl => simpa [processOneNew, he, v3, ht] using hla
     case hxt => simpa [processOneNew, he, ht] using h.dtmoB
-    case hhead => intro _ hd; simp [processOneNew, he, v3, ht, hd]
+    case hnormal =>
+      have e1 : ((processOneNew v d i).c i).tmo = d.cfg.dtmo := by simp [processOneNew, he, ht]
+      have e2 : (processOneNew v d i).normal = insSorted (processOneNew v d i).la d.normal i := by
+        simp [processOneNew, he, stampIns, v5]
+        rfl
+      rw [if_pos e1, e2]
+      refine ⟨fun j => mem_insSorted _ _ _ _, nodup_insSorted _ _ _ hin h.ndNormal, fun hd => ?_⟩
+      apply sorted_insSorted
+      refine sorted_congr ?_ (h.sorted hd)
+      intro a ha
+      have hai : a ≠ i := fun e => hin (e ▸ ha)
+      simp [processOneNew, he, hai]
     case hxs => simp [processOneNew, he, hs]
     all_goals simp [processOneNew, he, ht, hse]
   · have he' : d.cfg.epoll = false := by simpa using he
@@ -534,7 +578,18 @@ theorem inv_processOneNew {v : Variant} (hv : Fixed v) {d : Daemon} (h : Inv d) 
     case hc => intro j hj; simp [processOneNew, he', hj]
     case hxl => simpa [processOneNew, he', v3, ht] using hla
     case hxt => simpa [processOneNew, he', ht] using h.dtmoB
-    case hhead => intro _ hd; simp [processOneNew, he', v3, ht, hd]
+    case hnormal =>
+      have e1 : ((processOneNew v d i).c i).tmo = d.cfg.dtmo := by simp [processOneNew, he', ht]
+      have e2 : (processOneNew v d i).normal = insSorted (processOneNew v d i).la d.normal i := by
+        simp [processOneNew, he', stampIns, v5]
+        rfl
+      rw [if_pos e1, e2]
+      refine ⟨fun j => mem_insSorted _ _ _ _, nodup_insSorted _ _ _ hin h.ndNormal, fun hd => ?_⟩
+      apply sorted_insSorted
+      refine sorted_congr ?_ (h.sorted hd)
+      intro a ha
+      have hai : a ≠ i := fun e => hin (e ▸ ha)
+      simp [processOneNew, he', hai]
     case hxs => simp [processOneNew, he', hs]
     all_goals simp [processOneNew, he', ht, hse]
 
@@ -542,7 +597,7 @@ theorem inv_processOneNew {v : Variant} (hv : Fixed v) {d : Daemon} (h : Inv d) 
 
 theorem others_freeOne (d : Daemon) (i : Id) : Others i d (freeOne d i) := by
   unfold freeOne
-  refine ⟨rfl, rfl, rfl, rfl, ?_⟩; intro j hj; simp [hj]
+  refine ⟨rfl, rfl, rfl, ⟨rfl, rfl⟩, ?_⟩; intro j hj; simp [hj]
 
 theorem inv_freeOne {d : Daemon} (h : Inv d) (i : Id) (hi : i ∈ d.cleanup) : Inv (freeOne d i) := by
   have hnc : i ∉ d.conns := (h.disjClean i hi).1
@@ -600,9 +655,20 @@ theorem inv_arrive {d : Daemon} (h : Inv d) (i : Id) (hi : i ∉ d.used) : Inv (
     · subst e; first | (simp; done) | (simp; grind) | grind
     · first | (simp [e]; done) | (simp [e]; grind) | grind
 
-theorem inv_tick {d : Daemon} (h : Inv d) (ms : Nat) : Inv { d with now := d.now + ms } := by
+theorem inv_tick {d : Daemon} (h : Inv d) (ms : Nat) : Inv { d with now := d.now + ms, back := d.back - ms } := by
   constructor
-  case laLe => intro j; have := h.laLe j; simp; omega
+  case laLe => intro j; have := h.laLe j; simp only; omega
+  all_goals first
+    | exact h.nofault | exact h.ndConns | exact h.ndNormal | exact h.ndManual | exact h.ndSusp
+    | exact h.ndNew | exact h.ndClean | exact h.ndEready | exact h.connsIff | exact h.normalT | exact h.manualT
+    | exact h.connsS | exact h.suspS | exact h.newT | exact h.disjNew | exact h.disjClean
+    | exact h.usedAll | exact h.ready | exact h.nonEpoll | exact h.sorted | exact h.tmoB | exact h.dtmoB
+
+/-- the clock steps back: the ghost displacement grows by the same amount -/
+theorem inv_tickback {d : Daemon} (h : Inv d) (ms : Nat) (hms : ms ≤ d.now) :
+    Inv { d with now := d.now - ms, back := d.back + ms } := by
+  constructor
+  case laLe => intro j; have := h.laLe j; simp only; omega
   all_goals first
     | exact h.nofault | exact h.ndConns | exact h.ndNormal | exact h.ndManual | exact h.ndSusp
     | exact h.ndNew | exact h.ndClean | exact h.ndEready | exact h.connsIff | exact h.normalT | exact h.manualT
